@@ -9,6 +9,7 @@ import (
 	"errors"
 	"fmt"
 	"strings"
+	"sync/atomic"
 
 	sentinel "github.com/alibaba/sentinel-golang/api"
 	"github.com/alibaba/sentinel-golang/core/base"
@@ -26,6 +27,10 @@ import (
 
 type Cfg struct {
 	Origin uint64 `json:"origin_ms"`
+	// HotCap: ParamsMaxCapacity of the hot-parameter rules (0 = default). With 2 the three argument values of
+	// the workload do not fit: every lookup evicts, and the two per-value caches of a QPS rule are touched one
+	// after the other.
+	HotCap int64 `json:"hot_cap,omitempty"`
 }
 
 type P struct{}
@@ -37,7 +42,7 @@ func (P) Engine() string { return "E2r" }
 
 func (P) Describe() harness.Description {
 	return harness.Description{
-		MustHit: []string{"request_raced_with_rule_switch", "both_rule_lists_observed", "getter_ran_concurrently", "stable_resource_checked"},
+		MustHit: []string{"trace_error_on_an_entry_of_another_caller", "per_value_caches_smaller_than_the_value_set", "request_raced_with_rule_switch", "both_rule_lists_observed", "getter_ran_concurrently", "stable_resource_checked"},
 		Level:   "exploration",
 		Rule: "case = 3-6 simulated callers with 4-14 operations each: traffic (Entry with arguments / TraceError / Exit on a flow-churned, an isolation-churned, a hotspot-churned, a stable-blocking and a free resource), rule churn (LoadRulesOfResource switching among four distinguishable rule lists (2-3 rules each, exactly one always-blocking rule block<n> at a different position, the others never blocking; switches keep, move, drop and add controllers) for flow, isolation and hotspot; whole-set LoadRules / ClearRules for circuit breaker, system and outlier on other resources), readers (all GetRules / GetRulesOfResource, resource node list and statistics getters). " +
 			"The worker is built with -race; the seeded scheduler (random walk / PCT) picks the runner at every atomic access and lock operation. Oracles: (1) any race-detector report ends the run as a violation (replay = the regenerated case and its seeded schedule); (2) no panic escapes, no deadlock among the callers, every caller finishes; (3) every request on a churned resource is blocked by a block<n> rule - never admitted and never blocked by anything else (a mixed reading of two lists); (4) requests on the stable and the free resource are decided as if there were no churn. " +
@@ -62,6 +67,9 @@ var resNames = []string{rFlow, rIso, rHot, rStable, rFree}
 
 func (P) Gen(rng *sim.Rng, tier string) *harness.Case {
 	cfg := Cfg{Origin: 1700000000000 + rng.U64Range(0, 100000)}
+	if rng.Chance(0.3) {
+		cfg.HotCap = int64(rng.Range(1, 2))
+	}
 	k := rng.Range(3, 6)
 	callers := make([][]harness.Op, k)
 	for i := range callers {
@@ -84,6 +92,11 @@ func (P) Gen(rng *sim.Rng, tier string) *harness.Case {
 					}
 					fallthrough
 				case 1:
+					if rng.Chance(0.3) {
+						// TraceError on an entry another caller holds (and may be exiting at the same moment)
+						callers[i] = append(callers[i], harness.Op{K: "xtrace", R: rng.Intn(k), E: rng.Intn(3)})
+						continue
+					}
 					// a request through the outlier slots (custom chain) on a resource with an outlier rule
 					callers[i] = append(callers[i], harness.Op{K: "oreq", R: rng.Intn(3), F: rng.Chance(0.5)})
 				default:
@@ -148,9 +161,9 @@ func isoList(n uint64) []*isolation.Rule {
 	return []*isolation.Rule{mk("pass3", 500000), mk("pass3b", 1000000), mk("block3", 2)}
 }
 
-func hotList(n uint64) []*hotspot.Rule {
+func hotList(n uint64, capacity int64) []*hotspot.Rule {
 	mk := func(id string, t int64) *hotspot.Rule {
-		return &hotspot.Rule{ID: id, Resource: rHot, MetricType: hotspot.QPS, ControlBehavior: hotspot.Reject, ParamIndex: 0, Threshold: t, DurationInSec: 1, SpecificItems: map[interface{}]int64{}}
+		return &hotspot.Rule{ID: id, Resource: rHot, MetricType: hotspot.QPS, ControlBehavior: hotspot.Reject, ParamIndex: 0, Threshold: t, DurationInSec: 1, SpecificItems: map[interface{}]int64{}, ParamsMaxCapacity: capacity}
 	}
 	switch n % 4 {
 	case 0:
@@ -211,7 +224,7 @@ func (P) Exec(c *harness.Case) *harness.Outcome {
 		_, _ = flow.LoadRulesOfResource(rFlow, flowList(0))
 		_, _ = flow.LoadRulesOfResource(rStable, []*flow.Rule{{ID: "stable-block", Resource: rStable, TokenCalculateStrategy: flow.Direct, ControlBehavior: flow.Reject, Threshold: 0}})
 		_, _ = isolation.LoadRulesOfResource(rIso, isoList(0))
-		_, _ = hotspot.LoadRulesOfResource(rHot, hotList(0))
+		_, _ = hotspot.LoadRulesOfResource(rHot, hotList(0, cfg.HotCap))
 		// the free resource carries a hot-parameter CONCURRENCY rule that never blocks: every admitted request on it
 		// looks its value up in the per-value counter cache on entry, on pass and on completion
 		_, _ = hotspot.LoadRulesOfResource(rFree, []*hotspot.Rule{{ID: "free-conc", Resource: rFree, MetricType: hotspot.Concurrency, ParamIndex: 0, Threshold: 1000000}})
@@ -229,10 +242,21 @@ func (P) Exec(c *harness.Case) *harness.Outcome {
 	churns := make([][]*churnRec, k)
 	reads := make([]int, k)
 	bizErr := errors.New("biz")
+	// what each caller holds, visible to the others (xtrace). Published with a real atomic store / load: handing
+	// a pointer to another goroutine needs synchronisation in any program, and without that edge the race
+	// detector would report the other caller's first touch of the entry against its construction.
+	shared := make([][8]atomic.Pointer[base.SentinelEntry], k)
 	harness.RunE2(c, o, "C15", env.Clock, k, func(task int) {
 		var held []*base.SentinelEntry
 		for _, op := range c.Callers[task] {
 			switch op.K {
+			case "xtrace":
+				if op.R >= 0 && op.R < k && op.R != task && op.E >= 0 && op.E < 8 {
+					if e := shared[op.R][op.E].Load(); e != nil {
+						o.Probe("trace_error_on_an_entry_of_another_caller")
+						sentinel.TraceError(e, bizErr)
+					}
+				}
 			case "req":
 				if op.R < 0 || op.R >= len(resNames) {
 					continue
@@ -244,6 +268,9 @@ func (P) Exec(c *harness.Case) *harness.Outcome {
 				if e != nil {
 					r.admitted = true
 					if op.F {
+						if len(held) < 8 {
+							shared[task][len(held)].Store(e)
+						}
 						held = append(held, e)
 					} else {
 						e.Exit()
@@ -278,7 +305,7 @@ func (P) Exec(c *harness.Case) *harness.Outcome {
 				case 1:
 					_, _ = isolation.LoadRulesOfResource(rIso, isoList(op.N))
 				case 2:
-					_, _ = hotspot.LoadRulesOfResource(rHot, hotList(op.N))
+					_, _ = hotspot.LoadRulesOfResource(rHot, hotList(op.N, cfg.HotCap))
 				case 3:
 					if op.F {
 						_ = cb.ClearRules()
@@ -344,6 +371,17 @@ func (P) Exec(c *harness.Case) *harness.Outcome {
 	}, nil)
 	if o.Failed() {
 		return o
+	}
+	// a panic inside Sentinel that the slot chain recovered is still a panic: the request was waved through
+	// unchecked and unrecorded (the workload passes no argument that makes a rule check panic by itself)
+	for _, m := range env.Log.ErrMsgs() {
+		if strings.Contains(m, "panic") {
+			o.Fail("C15.internal-panic", 0, "Sentinel logged %q during the run (all error messages: %q)", m, env.Log.ErrMsgs())
+			return o
+		}
+	}
+	if cfg.HotCap > 0 {
+		o.Probe("per_value_caches_smaller_than_the_value_set")
 	}
 	seen := map[string]bool{}
 	for t := range results {
